@@ -138,10 +138,12 @@ pub struct RunOpts {
     /// at byte comparison points the Lean reader parses the implementation's files: must succeed,
     /// give the model's state and satisfy the executable invariant (facet "parse")
     pub parse_check: bool,
+    /// mirror every model request to the engine generated from the Rust source (driver `ge …`) and compare
+    pub gen_engine: bool,
 }
 impl Default for RunOpts {
     fn default() -> Self {
-        RunOpts { model: true, cmp_every: None, cmp_end: true, stop_first: true, op_budget_ms: 20_000, check_inv: false, decoder: false, child: false, sync_check: false, kill_after_sync: false, ro_check: false, parse_check: false }
+        RunOpts { model: true, cmp_every: None, cmp_end: true, stop_first: true, op_budget_ms: 20_000, check_inv: false, decoder: false, child: false, sync_check: false, kill_after_sync: false, ro_check: false, parse_check: false, gen_engine: false }
     }
 }
 
@@ -308,9 +310,23 @@ pub fn run_seq_with_state(seq: &Seq, dir: &Path, driver: &mut Option<Driver>, op
         };
         // ---------------- model side
         let mut want: Option<String> = None;
+        let mut gen_diffs: Vec<(String, String, String)> = Vec::new();
         let mut ask = |d: &mut Option<Driver>, line: String| -> String {
             match d {
-                Some(d) if opts.model => d.ask(&line),
+                Some(d) if opts.model => {
+                    let a = d.ask(&line);
+                    if opts.gen_engine {
+                        // `<name> open|put|get|del|inc|len|cmp …`: the same request to the generated engine
+                        let t: Vec<&str> = line.split_whitespace().collect();
+                        if t.len() >= 2 && ["open", "put", "get", "del", "inc", "len", "cmp"].contains(&t[1]) && t[0].starts_with('m') {
+                            let g = d.ask(&format!("ge {}", line));
+                            if g != a {
+                                gen_diffs.push((line.clone(), g, a.clone()));
+                            }
+                        }
+                    }
+                    a
+                }
                 _ => "-".into(),
             }
         };
@@ -744,6 +760,10 @@ pub fn run_seq_with_state(seq: &Seq, dir: &Path, driver: &mut Option<Driver>, op
         if clear_trace {
             let _ = imp.take_trace();
             clear_trace = false;
+        }
+        for (l, g, a) in gen_diffs.drain(..) {
+            let facet = if l.contains(" cmp ") { "gen-bytes" } else { "gen-api" };
+            diffs.push(Diff { idx, facet, op: format!("generated engine: {}", l), got: g, want: a });
         }
         if opts.stop_first && !diffs.is_empty() {
             break;
